@@ -247,6 +247,70 @@ impl DomGen {
         spec
     }
 
+    /// Trees of a SIZE that the ordinary generator practically never makes: counts at and around 2^6..2^10 (siblings,
+    /// depth, distinct SharedStrings, distinct classes, properties on one instance) and values of tens of KiB.
+    /// Known classes and properties only unless the generator allows unknown ones.
+    pub fn scale_tree(&self, r: &mut Rng) -> TreeSpec {
+        let mut spec = TreeSpec::new("DataModel");
+        let counts = [63usize, 64, 65, 127, 128, 129, 255, 256, 257, 600];
+        let n = *r.pick(&counts);
+        match r.below(if self.unknown_props { 6 } else { 4 }) {
+            0 => {
+                // wide: n siblings of one class, each with its own value; plus a few Refs across them
+                let p = spec.add(0, "Folder", "wide");
+                for i in 0..n {
+                    let id = spec.add(p, "ObjectValue", &format!("c{}", i));
+                    let t = if i % 3 == 0 { RefT::Null } else { RefT::Node(p + 1 + (i * 7 + 3) % n.max(1)) };
+                    spec.nodes[id].props.push(("Value".into(), PV::Ref(t)));
+                }
+            }
+            1 => {
+                // deep: a chain of n instances, names distinct
+                let mut p = 0;
+                for i in 0..n.min(300) {
+                    p = spec.add(p, if i % 2 == 0 { "Folder" } else { "Model" }, &format!("d{}", i));
+                }
+            }
+            2 => {
+                // n distinct SharedStrings on n instances (every k-th shares with the first)
+                let p = spec.add(0, "Folder", "shared");
+                for i in 0..n {
+                    let id = spec.add(p, "UnionOperation", &format!("u{}", i));
+                    let k = if i % 50 == 49 { 0 } else { i };
+                    spec.nodes[id].props.push(("MeshData2".into(), PV::V(Variant::SharedString(SharedString::new(format!("scale-shared-{}", k).into_bytes())))));
+                }
+            }
+            3 => {
+                // big values: tens of KiB of text / bytes, a long name
+                let big = *r.pick(&[4095usize, 4096, 65535, 65536, 70000]);
+                let id = spec.add(0, "StringValue", &"n".repeat(*r.pick(&[255usize, 256, 300])));
+                let text: String = (0..big).map(|i| if i % 97 == 0 { ' ' } else { (b'a' + (i % 26) as u8) as char }).collect();
+                spec.nodes[id].props.push(("Value".into(), PV::V(Variant::String(text))));
+                let id2 = spec.add(0, "Folder", "tags");
+                let tags: Vec<String> = (0..n).map(|i| format!("tag{}", i)).collect();
+                spec.nodes[id2].props.push(("Tags".into(), PV::V(Variant::Tags(tags.into()))));
+            }
+            4 => {
+                // n distinct (unknown) classes, two instances each
+                for i in 0..n.min(300) {
+                    for k in 0..2 {
+                        let id = spec.add(0, &format!("ZzClass{}", i), &format!("k{}", k));
+                        spec.nodes[id].props.push(("ZzInt320".into(), PV::V(Variant::Int32((i * 2 + k) as i32))));
+                    }
+                }
+            }
+            _ => {
+                // n (unknown) properties on one instance next to a bare one of the same class
+                let id = spec.add(0, "Folder", "many");
+                for i in 0..n.min(300) {
+                    spec.nodes[id].props.push((format!("ZzMany{}", i), PV::V(Variant::Int32(i as i32))));
+                }
+                spec.add(0, "Folder", "bare");
+            }
+        }
+        spec
+    }
+
     pub fn fill_props(&self, r: &mut Rng, spec: &mut TreeSpec) {
         let n_nodes = spec.nodes.len();
         let mut uids: HashSet<Variant2> = HashSet::new();
